@@ -19,6 +19,7 @@ import (
 	"strings"
 	"sync"
 	"sync/atomic"
+	"unsafe"
 )
 
 // Thread is one controlled goroutine.
@@ -46,6 +47,8 @@ type Thread struct {
 
 	Panic      any
 	PanicStack string
+
+	sched *Sched
 
 	spawns map[string]int
 	Steps  int
@@ -113,6 +116,13 @@ func goid() uint64 {
 
 // Me returns the calling thread, or nil when the caller is not a controlled thread.
 func (s *Sched) Me() *Thread {
+	if glsOK {
+		t := (*Thread)(runtime_getProfLabel())
+		if t == nil || t.sched != s {
+			return nil
+		}
+		return t
+	}
 	g := goid()
 	s.mu.Lock()
 	t := s.byGoid[g]
@@ -152,16 +162,21 @@ func GoOpt(site string, opt ThreadOpt, f func()) *Thread {
 		name = fmt.Sprintf("%s#%d", site, len(s.Threads))
 	}
 	t := &Thread{Name: name, ID: len(s.Threads), wake: make(chan struct{}), spawns: map[string]int{},
-		Low: opt.Low, App: opt.App, Daemon: opt.Daemon}
+		Low: opt.Low, App: opt.App, Daemon: opt.Daemon, sched: s}
 	s.Threads = append(s.Threads, t)
 	// The thread is born parked: the goroutine below only ever blocks on t.wake first.
 	t.Kind, t.Site, t.Parked = "go", "start:"+site, true
 	s.mu.Unlock()
 	go func() {
-		g := goid()
-		s.mu.Lock()
-		s.byGoid[g] = t
-		s.mu.Unlock()
+		var g uint64
+		if glsOK {
+			runtime_setProfLabel(unsafe.Pointer(t))
+		} else {
+			g = goid()
+			s.mu.Lock()
+			s.byGoid[g] = t
+			s.mu.Unlock()
+		}
 		defer func() {
 			if r := recover(); r != nil {
 				if _, ok := r.(abortSentinel); !ok {
